@@ -1192,7 +1192,38 @@ impl<'a> Gen<'a> {
                 }
             }
         };
-        match self.rng.below(3) {
+        match self.rng.below(4) {
+            3 => {
+                // a struct behind a union (`[s, ()][k]`): tested against narrower, equal, other and unrelated struct types
+                let a = self.expr(&Ty::Int, 0).0;
+                let b = self.expr(&Ty::Str, 0).0;
+                let st = E::Struct(vec![("a".to_string(), a), ("b".to_string(), b)]);
+                let k = self.rng.range(0, 1);
+                let scr = E::Index(Box::new(E::Arr(vec![st, E::Void])), Box::new(E::Int(k)));
+                let mk = |fields: &[(&str, Ty)]| {
+                    let mut m = BTreeMap::new();
+                    for (n, t) in fields {
+                        m.insert(n.to_string(), t.clone());
+                    }
+                    Ty::Struct(m)
+                };
+                self.tag("type-test:struct-behind-union");
+                (
+                    scr,
+                    vec![
+                        mk(&[("a", Ty::Int)]),
+                        mk(&[("a", Ty::Int), ("b", Ty::Str)]),
+                        mk(&[("b", Ty::Str)]),
+                        mk(&[("a", Ty::Str)]),
+                        mk(&[]),
+                        mk(&[("a", Ty::Int), ("c", Ty::Int)]),
+                        mk(&[("a", u.clone())]),
+                        Ty::Void,
+                        Ty::Any,
+                        Ty::union([mk(&[("a", Ty::Int)]), Ty::Int]),
+                    ],
+                )
+            }
             0 => {
                 let n = 1 + self.rng.below(3);
                 let es: Vec<E> = (0..n).map(|_| elem(self)).collect();
